@@ -28,6 +28,36 @@ type Rec struct {
 	Msgs  []hx.B   `json:"msgs"`
 	Outs  []int    `json:"outs"`
 	Panic string   `json:"panic"`
+	held  []midi.Message // what the library returned, looked at only when the record is written (see holder)
+}
+
+// holder keeps the records of the last calls back: a program builds several controller sequences before it sends any of them, so
+// what one call returned must still be the same after further calls.  The returned messages are serialised when the record leaves
+// the window (48 calls later), not when the call returns.
+type holder struct {
+	w       *hx.Writer
+	pending []*Rec
+	window  int
+}
+
+func (h *holder) put(r *Rec) {
+	h.pending = append(h.pending, r)
+	if len(h.pending) >= h.window {
+		h.flush()
+	}
+}
+
+func (h *holder) flush() {
+	for _, r := range h.pending {
+		if r.Panic == "" {
+			for _, m := range r.held {
+				r.Msgs = append(r.Msgs, append(hx.B{}, m...))
+			}
+		}
+		r.held = nil
+		h.w.Put(r)
+	}
+	h.pending = h.pending[:0]
 }
 
 func u(x int) uint8 { return uint8(x) }
@@ -110,9 +140,7 @@ func exec(ev, fn string, args []int, strs []string) *Rec {
 			if !ok || len(args) != h.n {
 				hx.Die("bad seq call", fn, args)
 			}
-			for _, m := range h.f(args) {
-				r.Msgs = append(r.Msgs, append(hx.B{}, m...))
-			}
+			r.held = h.f(args)
 		case "const":
 			v, ok := consts[strs[0]]
 			if !ok {
@@ -171,7 +199,8 @@ func cmdGen(argv []string) {
 	fs.Parse(argv)
 	w := hx.Create(*out)
 	rnd := rand.New(rand.NewSource(*seed))
-	seq := func(fn string, a ...int) { w.Put(exec("seq", fn, a, nil)) }
+	hold := &holder{w: w, window: 48}
+	seq := func(fn string, a ...int) { hold.put(exec("seq", fn, a, nil)) }
 
 	chansAll := []int{}
 	for c := 0; c < 256; c++ {
@@ -190,19 +219,19 @@ func cmdGen(argv []string) {
 	}
 	sortStrings(names)
 	for _, n := range names {
-		w.Put(exec("const", "", nil, []string{n}))
+		hold.put(exec("const", "", nil, []string{n}))
 	}
 	for _, n := range keyNames {
-		w.Put(exec("keys", "", nil, []string{n}))
+		hold.put(exec("keys", "", nil, []string{n}))
 	}
 	for k := 0; k < 128; k++ {
-		w.Put(exec("note", "", []int{k}, nil))
-		w.Put(exec("interval", "", []int{k}, nil))
-		w.Put(exec("is", "", []int{k}, nil))
-		w.Put(exec("transpose", "", []int{k}, nil))
+		hold.put(exec("note", "", []int{k}, nil))
+		hold.put(exec("interval", "", []int{k}, nil))
+		hold.put(exec("is", "", []int{k}, nil))
+		hold.put(exec("transpose", "", []int{k}, nil))
 	}
 	for i := -128; i < 128; i++ {
-		w.Put(exec("istr", "", []int{i}, nil))
+		hold.put(exec("istr", "", []int{i}, nil))
 	}
 
 	// Reset / SilenceChannel: whole argument domain
@@ -327,6 +356,7 @@ func cmdGen(argv []string) {
 		}
 		seq(fn, a...)
 	}
+	hold.flush()
 	w.Close()
 	fmt.Printf("{\"records\": %d}\n", w.N)
 }
@@ -345,6 +375,7 @@ func cmdRerun(argv []string) {
 	out := fs.String("out", "", "")
 	fs.Parse(argv)
 	w := hx.Create(*out)
+	hold := &holder{w: w, window: 1 << 30} // all records of the input are executed before any result is looked at
 	hx.ReadLines(*in, func(l []byte) {
 		var h struct {
 			Ev   string   `json:"ev"`
@@ -358,8 +389,9 @@ func cmdRerun(argv []string) {
 		if h.Ev == "note" || h.Ev == "istr" { // strs of these records are results, not inputs
 			h.Strs = nil
 		}
-		w.Put(exec(h.Ev, h.Fn, h.Args, h.Strs))
+		hold.put(exec(h.Ev, h.Fn, h.Args, h.Strs))
 	})
+	hold.flush()
 	w.Close()
 }
 
